@@ -263,6 +263,16 @@ def run_once(prog, script, schedule, min_threads, max_threads, bench=Bench):
                     answers.append((b.main_acq, 'status', a[1], r))
                 elif a[0] == 'turn':
                     b.turn()
+                elif a[0] == 'relife':
+                    # cleanup(), turn the loop, initialize() again: tokens of the first life must not name anything of the second
+                    b.log.append(('cleanup-begins',))
+                    b.call('cleanup', [])
+                    b.log.append(('cleanup-returns',))
+                    b.turn()
+                    for t_ in b.tasks:
+                        t_['old'] = True
+                    if not b.call('initialize', [min_threads, max_threads]):
+                        raise AnalysisBroken('ThreadPool::initialize refused after cleanup()')
                 elif a[0] == 'settle':
                     cancelled = set(x[2] for x in answers if x[1] == 'cancel' and x[3] == 0)
                     k.park_main_until(lambda: all(b.ended(n) for n in range(len(b.tasks)) if n not in cancelled and b.tasks[n]['id']),
@@ -330,7 +340,14 @@ def judge(b, answers, cleaned):
             return 'the completion callback of task #%d runs on thread %d, not on the loop thread' % (n, cbs[0][2])
         if cbs and log.index(cbs[0]) < log.index(ends[0]):
             return 'the completion callback of task #%d runs before the task body has returned' % n
+    relife = next((i for i, e in enumerate(log) if e[0] == 'cleanup-returns' and i < len(log) - 1), None)
     for at, kind, n, ans in answers:
+        if b.tasks[n].get('old') and relife is not None and at > relife and b.tasks[n]['id'] and pos.get(('submitted', n), 1 << 30) < relife:
+            if kind == 'status' and ans != NOTFOUND:
+                return 'after cleanup() and a new initialize(), getTaskStatus() of a token of the first life answers %s: it names a task of the second life' % ('"waiting"' if ans == WAITING else '"executing"')
+            if kind == 'cancel' and ans != 1:
+                return 'after cleanup() and a new initialize(), cancel() of a token of the first life answers %d: it names (and with 0 removes) a task of the second life' % ans
+            continue
         later_start = any(e[0] == 'start' and e[1] == n and i >= at for i, e in enumerate(log))
         if kind == 'cancel' and ans == 1 and later_start:
             return 'cancel() answers "not found" for task #%d, which is executed afterwards' % n
@@ -389,6 +406,7 @@ SCRIPTS = [
     ((2, 2), [E(1), E(-1), E(0), ('status', 1), ('cancel', 2), ('settle',), ('turn',)]),
     ((0, 1), [E(0), ('status', 0), ('cancel', 0), ('status', 0)]),
     ((1, 3), []),
+    ((0, 1), [E(0), E(0), ('settle',), ('turn',), ('relife',), E(0), ('status', 0), ('cancel', 1), ('status', 2), ('settle',), ('turn',)]),
     ((1, 2), [E(0), E(0, False), ('turn',), ('status', 1), ('turn',), ('settle',), ('turn',)]),
 ]
 
